@@ -6,8 +6,10 @@ import NxsModel.Pad
 import NxsModel.Dispatch
 import NxsModel.Lemmas.Accept
 import NxsModel.Lemmas.Pad
+import NxsModel.Props.C05
 namespace Nxs.C17
 open Nxs
+open Nxs.Pad (ClientReq)
 
 /-- with padding `p`, a write is extended by fewer than `p` zero bytes up to a multiple of `p`,
     and is otherwise unchanged; `p = 0` changes nothing -/
@@ -30,5 +32,122 @@ theorem padding_only_ignored (k : Nat) : Dispatch.recvHandle (List.replicate k 0
 example : Pad.dataAlign 16 [0x55, 0x06, 0x00, 0x02, 0x5b, 0x9c] =
     [0x55, 0x06, 0x00, 0x02, 0x5b, 0x9c, 0, 0, 0, 0, 0, 0, 0, 0, 0, 0] := by decide
 example : Dispatch.recvHandle [0x55, 0x06, 0x00, 0x02, 0x5b, 0x9c] ≠ .ignored := by decide +kernel
+
+/-! ### every request the client can issue
+
+  `Pad.ClientReq` enumerates the client's builders (`Parser.frame_start / frame_cmninfo / frame_chinfo / frame_enable /
+  frame_div`, the last two in single `(c, v)` and in vector form, `n` = the channel count the client learned);
+  `ClientReq.build` is the builder call, `ClientReq.written p` what `intf.write` hands to `_write` under padding `p`. -/
+
+/-- the argument ranges under which the builder returns a request at all (C05's hypotheses) -/
+def Valid : ClientReq → Prop
+  | .start _ => True
+  | .cmninfo => True
+  | .chinfo c => c ≤ 255
+  | .enSingle n c _ => c < n ∧ n ≤ 255
+  | .enVec n vs => vs.length = n ∧ 1 ≤ n ∧ n ≤ 255
+  | .divSingle n c v => c < n ∧ n ≤ 255 ∧ v ≤ 255
+  | .divVec n vs => vs.length = n ∧ 1 ≤ n ∧ n ≤ 255 ∧ ∀ v ∈ vs, v ≤ 255
+
+/-- index of the device-side callback the request is meant for (`Dispatch.cbName`) -/
+def cbOf : ClientReq → Nat
+  | .cmninfo => 0
+  | .chinfo _ => 1
+  | .enSingle .. | .enVec .. => 2
+  | .divSingle .. | .divVec .. => 3
+  | .start _ => 4
+
+/-- the NxScope payload of the request (hand-written encodings of C05) -/
+def payloadOf : ClientReq → Bytes
+  | .start b => [C05.byte (C05.b2n b)]
+  | .cmninfo => []
+  | .chinfo c => [C05.byte c]
+  | .enSingle _ c v => C05.specSingle c (C05.b2n v)
+  | .enVec _ vs => C05.specVec (vs.map C05.b2n)
+  | .divSingle _ c v => C05.specSingle c v
+  | .divVec _ vs => C05.specVec vs
+
+private theorem specVec_ne_nil (vs : List Nat) (h : vs ≠ []) : C05.specVec vs ≠ [] := by
+  cases vs with
+  | nil => exact absurd rfl h
+  | cons v vs =>
+    have hsv : C05.specVec (v :: vs) =
+        if Requests.allSame (v :: vs) then C05.specAll v else C05.specBulk (v :: vs) := rfl
+    rw [hsv]
+    split
+    · exact fun h' => nomatch h'
+    · exact fun h' => nomatch h'
+
+private theorem specVec_length_le (vs : List Nat) : (C05.specVec vs).length ≤ vs.length + 3 := by
+  cases vs with
+  | nil => simp [C05.specVec]
+  | cons v vs =>
+    have hsv : C05.specVec (v :: vs) =
+        if Requests.allSame (v :: vs) then C05.specAll v else C05.specBulk (v :: vs) := rfl
+    rw [hsv]
+    split
+    · simp [C05.specAll]
+    · simp [C05.specBulk]
+
+/-- **Every request the client can issue, every padding value.**  For every request `r` (arguments in range) and every
+    write padding `p` — any natural number, in particular 0..255 —: the builder returns a request `f`; what the
+    interface writes is `f` followed by `k` zero bytes with `k = 0` when `p = 0`, and `k < p`, `p ∣ |f| + k` otherwise;
+    the device-side receiver fires on `f` exactly the callback meant (`cbOf`) with exactly the request's payload
+    (`payloadOf`), and reacts to what was written (padded) exactly as to `f` alone. -/
+theorem request_write_invisible (r : ClientReq) (hr : Valid r) (p : Nat) :
+    ∃ f k, r.build = .ok f ∧ r.written p = .ok (f ++ List.replicate k 0) ∧
+      (p = 0 → k = 0) ∧ (p > 0 → k < p ∧ p ∣ f.length + k) ∧
+      Dispatch.recvHandle f = .fired (cbOf r) (payloadOf r) ∧
+      Dispatch.recvHandle (f ++ List.replicate k 0) = Dispatch.recvHandle f := by
+  have key : ∀ (fid cb : Nat) (pl : Bytes), r.build = .ok (Spec.wire fid pl) → pl.length ≤ 65529 → fid ≤ 8 →
+      Dispatch.cbHandle fid pl = .fired cb pl →
+      ∃ f k, r.build = .ok f ∧ r.written p = .ok (f ++ List.replicate k 0) ∧
+        (p = 0 → k = 0) ∧ (p > 0 → k < p ∧ p ∣ f.length + k) ∧
+        Dispatch.recvHandle f = .fired cb pl ∧
+        Dispatch.recvHandle (f ++ List.replicate k 0) = Dispatch.recvHandle f := by
+    intro fid cb pl hb hp hf hcb
+    obtain ⟨f, k, h1, h2, h3, h4, h5, h6⟩ := Pad.written_wire r p fid cb pl hb hp hf hcb
+    exact ⟨f, k, h1, h2, h3, h4, h5, by rw [h6, h5]⟩
+  cases r with
+  | start b => exact key 5 4 [C05.byte (C05.b2n b)] (C05.req_bytes_start b) (by simp) (by omega) (Pad.cb_start _)
+  | cmninfo => exact key 2 0 [] C05.req_bytes_cmninfo (by simp) (by omega) Pad.cb_cmninfo
+  | chinfo c => exact key 3 1 [C05.byte c] (C05.req_bytes_chinfo c hr) (by simp) (by omega) (Pad.cb_chinfo _)
+  | enSingle n c v =>
+    exact key 6 2 (C05.specSingle c (C05.b2n v)) (C05.req_bytes_en_single n c v hr.1 hr.2) (by simp [C05.specSingle]) (by omega)
+      (Pad.cb_enable _ (by simp [C05.specSingle]))
+  | enVec n vs =>
+    obtain ⟨hl, h1, hn⟩ := hr
+    have hne : vs.map C05.b2n ≠ [] := by
+      intro h; rw [List.map_eq_nil_iff] at h; subst h; simp at hl; omega
+    have hlen := specVec_length_le (vs.map C05.b2n)
+    rw [List.length_map] at hlen
+    exact key 6 2 (C05.specVec (vs.map C05.b2n)) (C05.req_bytes_en_vec n vs hl h1 hn) (by omega) (by omega) (Pad.cb_enable _ (specVec_ne_nil _ hne))
+  | divSingle n c v =>
+    exact key 7 3 (C05.specSingle c v) (C05.req_bytes_div_single n c v hr.1 hr.2.1 hr.2.2) (by simp [C05.specSingle]) (by omega)
+      (Pad.cb_div _ (by simp [C05.specSingle]))
+  | divVec n vs =>
+    obtain ⟨hl, h1, hn, hv⟩ := hr
+    have hne : vs ≠ [] := by intro h; subst h; simp at hl; omega
+    have hlen := specVec_length_le vs
+    exact key 7 3 (C05.specVec vs) (C05.req_bytes_div_vec n vs hl h1 hn hv) (by omega) (by omega) (Pad.cb_div _ (specVec_ne_nil _ hne))
+
+/-- the statement of `Props/E2E.lean`'s `request_reaches_callback`, here as a C17 theorem: the dispatcher fed with
+    `data_align p` of the builder's output fires the matching callback with the request's payload -/
+theorem request_reaches_callback (r : ClientReq) (hr : Valid r) (p : Nat) :
+    ∃ f, r.build = .ok f ∧ Dispatch.recvHandle (Pad.dataAlign p f) = .fired (cbOf r) (payloadOf r) ∧
+      Dispatch.recvHandle (Pad.dataAlign p f) = Dispatch.recvHandle f := by
+  obtain ⟨f, k, hb, hw, _, _, hf, hk⟩ := request_write_invisible r hr p
+  have hne : Dispatch.recvHandle f ≠ .ignored := by rw [hf]; exact fun h => nomatch h
+  exact ⟨f, hb, by rw [aligned_same p f hne, hf], aligned_same p f hne⟩
+
+/-- non-vacuity: the hypotheses are satisfiable in every constructor, and a request whose CRC ends in 0x00
+    (`frame_div((0, 30), 11)` = 55 09 00 07 00 00 1e 79 00) under padding 16 -/
+example : Valid (.start true) ∧ Valid .cmninfo ∧ Valid (.chinfo 255) ∧ Valid (.enSingle 255 254 true) ∧
+    Valid (.enVec 3 [true, false, true]) ∧ Valid (.divSingle 11 0 30) ∧ Valid (.divVec 2 [255, 0]) := by
+  refine ⟨trivial, trivial, ?_, ?_, ?_, ?_, ?_⟩ <;> simp [Valid]
+example : (ClientReq.divSingle 11 0 30).written 16 =
+    .ok [0x55, 0x09, 0x00, 0x07, 0x00, 0x00, 0x1e, 0x79, 0x00, 0, 0, 0, 0, 0, 0, 0] := by decide +kernel
+example : Dispatch.recvHandle [0x55, 0x09, 0x00, 0x07, 0x00, 0x00, 0x1e, 0x79, 0x00, 0, 0, 0, 0, 0, 0, 0] =
+    .fired 3 [0x00, 0x00, 0x1e] := by decide +kernel
 
 end Nxs.C17
